@@ -2,6 +2,7 @@ import RoaringModel.Bitmap
 import RoaringModel.Spec
 import RoaringModel.Fmt
 import RoaringModel.Lemmas.MiscFmt
+import RoaringModel.Lemmas.SpecFacts
 /-!
 # C16 — public operations are total: only the documented panics (property theorems)
 -/
@@ -34,9 +35,12 @@ def Bound.fits (maxV : Nat) : Bound → Prop
     (`Spec.interval` is the spec-side meaning of a bound pair). -/
 theorem C16_convertRange_ok (maxV : Nat) (lo hi : Bound) (hlo : Bound.fits maxV lo) (hhi : Bound.fits maxV hi)
     (a b : Nat) : convertRange maxV lo hi = .ok (a, b) ↔ Spec.interval maxV lo hi = some (a, b) := by
-  cases lo <;> cases hi <;> simp only [Bound.fits] at hlo hhi <;>
-    simp only [convertRange, Spec.interval] <;> (repeat' split) <;>
-    simp_all <;> omega
+  have hl : Roaring.Bound.le maxV lo := by cases lo <;> exact hlo
+  have hh : Roaring.Bound.le maxV hi := by cases hi <;> exact hhi
+  have := convertRange_interval maxV lo hi hl hh
+  cases hc : convertRange maxV lo hi with
+  | ok r => rw [hc] at this; simp only [Except.ok.injEq]; rw [← this]; simp
+  | error e => rw [hc] at this; rw [← this]; simp
 
 /-- Non-vacuity: `(Excluded 3, Included 10)` is `[4, 10]`, `..` is the whole universe. -/
 example : convertRange u32Max (.excl 3) (.incl 10) = .ok (4, 10) ∧ convertRange u32Max .unb .unb = .ok (0, u32Max) :=
@@ -67,13 +71,12 @@ theorem C16_convertRange_nonempty (maxV : Nat) (lo hi : Bound) (hlo : Bound.fits
   suffices h : ∃ a b, Spec.interval maxV lo hi = some (a, b) ∧ a ≤ x ∧ x ≤ b by
     obtain ⟨a, b, h1, h2, h3⟩ := h
     exact ⟨a, b, (C16_convertRange_ok maxV lo hi hlo hhi a b).2 h1, h2, h3⟩
-  cases lo <;> cases hi <;> simp only [Bound.fits] at hlo hhi <;> simp only [Spec.Bound.mem] at hm <;>
-    simp only [Spec.interval] <;> (repeat' split) <;>
-    first
-      | (refine ⟨_, _, rfl, ?_, ?_⟩ <;> simp_all <;> omega)
-      | (exfalso; simp_all; omega)
-      | (exfalso; simp_all)
-      | (exfalso; omega)
+  cases hi' : Spec.interval maxV lo hi with
+  | none => exact absurd ⟨hm, hx⟩ (Spec.interval_none maxV lo hi hi' x)
+  | some p =>
+    obtain ⟨a, b⟩ := p
+    have := (Spec.interval_some maxV lo hi a b hi').2.2 x
+    exact ⟨a, b, rfl, (this.mpr ⟨hm, hx⟩).1, (this.mpr ⟨hm, hx⟩).2⟩
 
 /-- Non-vacuity: 7 lies in `(Excluded 3, Excluded 8)`. -/
 example : Spec.Bound.mem (.excl 3) (.excl 8) 7 := by decide
